@@ -107,7 +107,9 @@ func runC15(c *Ctx) {
 					safetyBad = "the emitted value must be the item itself"
 				}
 				removed := false
-				for _, s := range r.Stores(func(e *Effect) bool { return e.RecvHas(stagesF) && e.Gen > pu.Gen && !e.RecvHas(stageF) && !e.RecvHas(clF) }) {
+				for _, s := range r.Stores(func(e *Effect) bool {
+					return e.RecvHas(stagesF) && e.Gen > pu.Gen && !e.RecvHas(stageF) && !e.RecvHas(clF)
+				}) {
 					_ = s
 					removed = true
 				}
